@@ -341,4 +341,18 @@ func H_Faults() {
 			vrt.Assert(in.Closed == 1, "C15.ownership_lost_after_failure", "instance of slot", in.Slot, "constructed around a failed resolution has close count", in.Closed)
 		}
 	}
+	// C11: within one scope, what was created later is closed earlier - an
+	// instance is closed before the (non-singleton) instances it received, also
+	// when a failed construction lies between their creation and the Close
+	for _, in := range kit.Log {
+		if !disposable(in) || len(in.CloseSeq) == 0 || w.Regs[in.Slot].Life == kit.LSingleton {
+			continue
+		}
+		for _, a := range in.Args {
+			if a == nil || !disposable(a) || len(a.CloseSeq) == 0 || w.Regs[a.Slot].Life == kit.LSingleton {
+				continue
+			}
+			vrt.Assert(in.CloseSeq[0] < a.CloseSeq[0], "C11.dependency_closed_first", "the instance of slot", a.Slot, "was closed before the instance of slot", in.Slot, "that holds it")
+		}
+	}
 }
